@@ -252,13 +252,23 @@ class CommentStyle:
             CommentParseError: if *text* does not start with a parseable
                 comment block.
         """
+        # pylint: disable=too-many-branches
         if not any((cls.can_handle_single(), cls.can_handle_multi())):
             raise CommentParseError(f"{cls} cannot parse comments")
 
         lines = text.splitlines()
         end: Optional[int] = None
 
-        if cls.can_handle_single():
+        # Attempt multi-line comments first, in case of comment styles like
+        # Julia, where '#=' starts a multi-line comment, and '#' starts a
+        # single-line comment. A block that never delimits is no block.
+        if cls.can_handle_multi() and text.startswith(cls.MULTI_LINE.start):
+            for i, line in enumerate(lines):
+                if line.endswith(cls.MULTI_LINE.end):
+                    end = i
+                    break
+
+        if end is None and cls.can_handle_single():
             for i, line in enumerate(lines):
                 if (
                     cls.SINGLE_LINE_REGEXP
